@@ -2,7 +2,10 @@ package kgo
 
 import (
 	"context"
+	"errors"
 	"sync"
+
+	"github.com/twmb/franz-go/pkg/kerr"
 
 	"github.com/twmb/franz-go/pkg/kmsg"
 )
@@ -33,6 +36,7 @@ var verifC40 struct {
 	reqs   []*kmsg.ListOffsetsRequest
 	loads  []listOrEpochLoads
 	rev2nd bool // answer the second request with partitions in reversed order
+	errOn  int  // inject NOT_LEADER_FOR_PARTITION into the answers of: bit 0 the first request, bit 1 the second
 }
 
 //verif:replace (*broker).waitResp
@@ -71,6 +75,9 @@ func (b *broker) verifC40WaitResp(ctx context.Context, req kmsg.Request) (kmsg.R
 				default:
 					rp.ErrorCode = 42 // INVALID_REQUEST: the builders can never produce this
 				}
+			}
+			if (!second && verifC40.errOn&1 != 0) || (second && verifC40.errOn&2 != 0) {
+				rp.ErrorCode = 6
 			}
 			rt.Partitions = append(rt.Partitions, rp)
 		}
@@ -233,6 +240,7 @@ func verifC40Resolve(shape int, rc bool, o Offset, x, r int64) {
 	verifC40.logs = map[int32]*verifC40Log{0: l}
 	verifC40.reqs = nil
 	verifC40.rev2nd = false
+	verifC40.errOn = 0
 
 	o.currentEpoch = 7
 	load := offsetLoadMap{"t": {0: offsetLoad{replica: -1, Offset: o}}}
@@ -444,4 +452,47 @@ func VerifC40_assignAndResolve() {
 	_, used := c.usingCursors[cur]
 	verifAssert(used, "the resolved cursor is tracked as in use")
 	verifReached("c40-assign-list")
+}
+
+// A per-partition error in EITHER of the two ListOffsets answers (start listing, end listing)
+// makes the partition's load fail with that error; it is never turned into a resolved offset.
+// Offsets that consult both listings (relative to start/end, exact with bounds), error injected
+// into the first answer, the second, or both.
+func VerifC40_listResolvePartitionError() {
+	shape := verifChoose(3) // At(x).Relative(r), AtStart().Relative(r), AtEnd().Relative(r)
+	rc := verifChoose(2) == 1
+	o, _, _ := verifC40Offset(shape)
+	cl, b, tps, _ := verifC40Client(rc)
+	l := verifC40SymLog()
+	l.tsOffset = -1
+	verifC40.logs = map[int32]*verifC40Log{0: l}
+	verifC40.reqs = nil
+	verifC40.rev2nd = false
+	verifC40.errOn = 1 + verifChoose(3)
+	defer func() { verifC40.errOn = 0 }()
+
+	o.currentEpoch = 7
+	load := offsetLoadMap{"t": {0: offsetLoad{replica: -1, Offset: o}}}
+	results := make(chan loadedOffsets, 1)
+	cl.listOffsetsForBrokerLoad(context.Background(), b, load, tps, results)
+	verifRunAll()
+	res := <-results
+	verifAssert(len(res.loaded) >= 1, "the partition's load is answered")
+	if len(res.loaded) < 1 {
+		return
+	}
+	if len(verifC40.reqs) < 2 && verifC40.errOn == 2 {
+		verifReached("c40-list-error-single-request") // only one listing was needed: nothing was injected
+		return
+	}
+	// (the failed partition is reported with the broker's error and, because it also stays in
+	// the load map, once more as unknown: every entry must be an error, none a resolved offset)
+	allErr, sawBrokerErr := true, false
+	for _, lo := range res.loaded {
+		allErr = allErr && lo.err != nil && lo.cursor == nil
+		sawBrokerErr = sawBrokerErr || errors.Is(lo.err, kerr.NotLeaderForPartition)
+	}
+	verifAssert(allErr, "a partition error in either ListOffsets answer fails the partition's load instead of resolving an offset")
+	verifAssert(sawBrokerErr, "the load fails with the broker's error for that partition")
+	verifReached("c40-list-error")
 }
